@@ -1,5 +1,6 @@
 # unit `disk` (C19): rolling_logger.rs, event_logger.rs (file-count guard of `start`), authorization_rules.rs write_all
 import os
+import re
 HERE = os.path.dirname(os.path.abspath(__file__))
 COMMON = os.path.join(os.path.dirname(HERE), "common")
 
@@ -52,7 +53,7 @@ impl RollingLogger {
 # %(g)s guards the "already removed" fact: write_all ignores a failed removal (flag), archive_file returns on it.
 DELETE_LOOP_INV = """
                 invariant_except_break
-                    it.index@ == count - %(m)s,
+                    it.index@ == count - %(m)s,  // @C19.%(f)s.delete_loop.count_is_max_plus_removed
                     count <= %(l)s.len(),
                 invariant
                     d.wf(),
@@ -64,7 +65,7 @@ DELETE_LOOP_INV = """
                     forall|k: int| count - %(m)s <= k < %(l)s.len() ==> d.files.contains_key(#[trigger] %(l)s[k]),
                     %(g)sforall|k: int| 0 <= k < count - %(m)s ==> !d.files.contains_key(#[trigger] %(l)s[k]),
                 ensures
-                    %(m)s >= 1 ==> count == %(l)s.len() + 1,
+                    %(m)s >= 1 ==> count == %(l)s.len() + 1,  // @C19.%(f)s.delete_loop.removes_len_minus_max_plus_one
 """
 
 SIZE_CLAUSE = "forall|b: nat| %s#[trigger] all_sizes_le(*old(d), b) ==> all_sizes_le(*final(d), b)"
@@ -162,6 +163,13 @@ def build(u):
             u.take(rl, "RollingLogger", "struct")
             u.raw(LOGGER_SPEC)
             with u.impl_(rl, "RollingLogger"):
+                u.take_fn(rl, "RollingLogger::create_new", contract="""
+        ensures r.max_log_file_count == log_count,  // @C19.create_new.configured_count_stored
+                r.max_log_file_size == log_size,  // @C19.create_new.configured_size_stored
+""")
+                u.take_fn(rl, "RollingLogger::new", contract="""
+        ensures r.max_log_file_count >= 1,
+""")
                 u.take_fn(rl, "RollingLogger::open_file", external_body=True, ghost=DIR, contract="""
         requires old(d).wf(),
         ensures r is Ok ==> final(d).files == created_if_absent(old(d).files, self.cur()) && wpath(r->Ok_0) == self.cur(),
@@ -186,7 +194,7 @@ def build(u):
                           pre_body="broadcast use axiom_fmt_i128;",
                           loop_iter_names={0: "it"},
                           loop_attrs={0: "#[verifier::loop_isolation(false)]"},
-                          loops={0: DELETE_LOOP_INV % dict(l="l", m="max_count", g="")},
+                          loops={0: DELETE_LOOP_INV % dict(l="l", m="max_count", g="", f="archive_file")},
                           hints=[("fs::rename(current_name", None, "after", "proof { lemma_rename(*old(d), *d, current_name, new_file_name); }"),
                                  ("let max_count: usize", None, "before", "let ghost d0 = *d;\nlet ghost l = log_files@;"),
                                  ("for log in log_files", None, "after", "proof { lemma_prefix_removed(l, d0, *d, count - max_count); }"),
@@ -210,12 +218,13 @@ def build(u):
                           e9=[("file.metadata()", None, "file: &PathBuf, " + DIR_RO, "&file, Tracked(d)", "std::io::Result<std::fs::Metadata>", """
         ensures r is Ok ==> d.files.contains_key(*file) && meta_len(r->Ok_0) == d.files[*file],
 """, dict(name="vx_e9_metadata"))],
+                          hints=[("let file = self.get_current_file_full_path(None);", None, "before",
+                                  "let ghost m1 = *d;\nproof { assert forall|b: nat| #[trigger] all_sizes_le(*old(d), b) implies all_sizes_le(m1, b) by {} }")],
                           contract="""
         requires old(d).wf(),
                  self.max_log_file_count >= 1,
         ensures final(d).wf(),
                 !final(d).io_failed ==> (log_inv(*old(d), self.cur(), self.max()) ==> log_inv(*final(d), self.cur(), self.max())),  // @C19.roll_if_needed.file_count_invariant
-                final(d).count() <= old(d).count() + 1,
                 old(d).io_failed ==> final(d).io_failed,
                 r is Ok ==> final(d).files.contains_key(self.cur()) && (final(d).files[self.cur()] < self.max_log_file_size || final(d).files[self.cur()] == 0),  // @C19.roll_if_needed.current_file_below_limit
                 %s,  // @C19.roll_if_needed.no_file_grows
@@ -247,17 +256,16 @@ def build(u):
                               ("writer.flush()", None, "writer: &mut LineWriter<File>, " + DIR, "&mut writer, Tracked(d)",
                                "std::io::Result<()>", WRITE_CONTRACT % "0", dict(name="vx_e9_write_many_flush"))],
                           loop_iter_names={0: "it"},
-                          loop_attrs={0: "#[verifier::loop_isolation(false)]"},
                           loops={0: """
                 invariant
                     d.wf(),
                     wpath(writer) == self.cur(),
-                    d.io_failed == d1.io_failed,
                     appended_at_most(d1, *d, self.cur(), total_bytes(ms.take(it.index@))),
 """},
-                          hints=[("if let Ok(mut writer)", None, "before", "let ghost d1 = *d;\nlet ghost ms = messages@;"),
-                                 ("for message in messages", None, "before", "proof { assert(ms.take(0) =~= Seq::<String>::empty()); }"),
-                                 ('writer.write_all(b"\\n")', None, "after", "proof { lemma_total_step(ms, it.index@); }"),
+                          # NB the loop attribute is part of the hint text: a hint placed before the `for` statement would
+                          # otherwise land between a loop_attrs attribute and the loop
+                          hints=[("for message in messages", None, "before", "let ghost d1 = *d;\nlet ghost ms = messages@;\nproof { assert(ms.take(0) =~= Seq::<String>::empty()); }\n#[verifier::loop_isolation(false)]"),
+                                 ("writer.write_all(message.as_bytes())", None, "before", "proof { lemma_total_step(ms, it.index@); lemma_total_mono(ms, it.index@ + 1); }"),
                                  ("writer.flush()", None, "before", "proof { assert(ms.take(ms.len() as int) =~= ms); }")],
                           contract=WL % dict(f="write_many", w="total_bytes(messages@)",
                                              s=SIZE_CLAUSE % "b >= self.max_log_file_size + total_bytes(messages@) && "))
@@ -282,13 +290,17 @@ def build(u):
             lo_, hi_ = it["loops"][0]["body"]
             a, _ = u.find_anchor(el, lo_, hi_, "match misc_helpers::get_files(&event_dir)", None, "start")
             st = u.enclosing_stmt(it, a)
+            # census: the only thing in event_logger.rs that creates a file is the json_write_to_file call inside the slice
+            writers = [(f["path"], c) for f in el.all_fns() if not f["path"].startswith("tests::") for c in f["calls"]
+                       if c["kind"] == "path" and re.search(r"(json_write_to_file|File::create|fs::write|OpenOptions|fs::copy|fs::rename)", c["callee"])]
+            if len(writers) != 1 or writers[0][0] != "start" or not (st[0] <= writers[0][1]["span"][0] < hi_):
+                raise Undecided("event_logger.rs: expected exactly one file-creating call, inside the guarded part of start's loop; found %s" % [(w[0], w[1]["callee"]) for w in writers])
             u.slice_fn(el, "start", "vx_slice_event_flush", st[0], hi_ - 1,
                        "event_dir: PathBuf, max_event_file_count: usize, events: Vec<Event>, " + DIR,
                        replacements=[("continue;", "all", "return;")],
                        ghost_calls=[("misc_helpers::get_files", None, "Tracked(d)"), ("misc_helpers::json_write_to_file", None, "Tracked(d)")],
-                       pre_body="broadcast use axiom_fmt_path_display;\nbroadcast use axiom_fmt_error;\nbroadcast use axiom_fmt_i128;\n",
-                       hints=[("if files.len() >= max_event_file_count", None, "before", "proof { files@.unique_seq_to_set(); }"),
-                              ("let mut file_path", None, "before", "let ghost mid = *d;"),
+                       pre_body="broadcast use axiom_fmt_path_display;\nbroadcast use axiom_fmt_error;\nbroadcast use axiom_fmt_i128;\nbroadcast use lemma_listing_len;\n",
+                       hints=[("let mut file_path", None, "before", "let ghost mid = *d;"),
                               ("match misc_helpers::json_write_to_file", None, "after", "proof { lemma_added_one_count(mid, *d); }")],
                        what="(loop body of start from the file-count check to the end; E5 drops: sleep, shutdown flag, queue draining)",
                        contract="""
@@ -327,9 +339,9 @@ def build(u):
                           pre_body="broadcast use axiom_fmt_path_display;\nbroadcast use axiom_fmt_error;\nbroadcast use axiom_fmt_io_error;",
                           loop_iter_names={0: "it"},
                           loop_attrs={0: "#[verifier::loop_isolation(false)]"},
-                          loops={0: DELETE_LOOP_INV % dict(l="files@", m="max_file_count", g="!d.io_failed ==> ")},
+                          loops={0: DELETE_LOOP_INV % dict(l="files@", m="max_file_count", g="!d.io_failed ==> ", f="write_all")},
                           hints=[("return;", None, "before", "proof { lemma_added_refl(*d); }"),
-                                 ("if files.len() >= max_file_count", None, "before", "let ghost d0 = *d;"),
+                                 ("let files = match misc_helpers::search_files", None, "after", "let ghost d0 = *d;"),
                                  ("for file in &files", None, "after", "proof { if !d.io_failed { lemma_prefix_removed(files@, d0, *d, count - max_file_count); } }"),
                                  ("let new_file_name", None, "before", "let ghost mid = *d;\nproof { if files.len() < max_file_count { lemma_prefix_removed(files@, d0, mid, 0); } }"),
                                  ("misc_helpers::json_write_to_file", None, "after", "proof { lemma_added_one_count(mid, *d); lemma_subset_count(*d, mid); }")],
